@@ -171,7 +171,7 @@ PROPS = {
     "C02": dict(
         facts=True,
         families=[dict(name="tree", args=["-specs", "1,12"]), dict(name="hist", args=["-specs", "1,12"]),
-                  dict(name="pipe", args=["-specs", "1,12", "-n", "10"]), dict(name="fault", args=["-specs", "48"]),
+                  dict(name="pipe", args=["-specs", "1,12", "-n", "10"]), dict(name="fault", args=["-specs", "41,48"]),
                   dict(name="remote", args=["-specs", "32,33,36"]), dict(name="race", race=True)],
         level_text="Theorems C02_history / C02_step / C02_commit / C02_initial: for every history of commands of the "
                    "whole-program model from any state with a well-formed cache (in particular the empty one), every "
@@ -186,7 +186,7 @@ PROPS = {
         assumptions=["H collision-free on the strings involved", "users do not write through links into the cache"],
     ),
     "C07": dict(
-        families=[dict(name="effects", args=["-specs", "2,5,8,9,10,13,14,21"]), dict(name="pipe", args=["-specs", "2,8,9,13"]), dict(name="corrupt", args=["-specs", "8"])],
+        families=[dict(name="effects", args=["-specs", "2,5,8,9,10,13,14,21"]), dict(name="pipe", args=["-specs", "2,8,9,13"]), dict(name="corrupt", args=["-specs", "8"]), dict(name="hist", args=["-specs", "5,14", "-n", "50"])],
         level_text="Theorems C07_readonly, C07_no_stage_write, C07_no_cache_write, C07_failed_step_unchanged, "
                    "C07_run_only_commands_write, C07_run_without_effects, C07_inputs_untouched, C07_skip_outputs_untouched "
                    "over the whole-program model. proof, partial: absence of other system calls is an audit of runs. Tied "
@@ -245,7 +245,7 @@ PROPS = {
         assumptions=["H collision-free on the strings involved"],
     ),
     "C17": dict(
-        families=[dict(name="stagefile"), dict(name="defedit")],
+        families=[dict(name="stagefile"), dict(name="defedit"), dict(name="pipe", args=["-specs", "38", "-n", "10"])],
         level_text="Theorems C17_normalise, C17_roundtrip(_loaded) (record level, for any YAML codec that round-trips the "
                    "written value), C17_def_ignores_checksums, C17_def_ignores_order, C17_def_checksum (the definition "
                    "checksum changes exactly when command, working dir, or the sorted checksum-blanked artifact sets "
